@@ -174,7 +174,7 @@ def pack_desc(draw, has_stats=True, finite=False, atoms_only=False, allow_iterat
 
 
 clock_script = st.lists(
-    st.sampled_from([0.001, 0.01, 0.01, 0.05, 0.05, 0.2, 0.5, 1.0, 3.0]), min_size=1, max_size=6
+    st.sampled_from([0.02, 0.02, 0.05, 0.05, 0.2, 0.5, 1.0, 3.0]), min_size=1, max_size=6
 )
 
 DBS = ["RuleDB", "RuleDB", "Forget", "Forest", "Forest", "ForestNoRev"]
@@ -185,7 +185,7 @@ def call_desc(draw):
     mode = draw(st.sampled_from(["auto", "auto", "auto", "repeat", "levels"]))
     d = {"mode": mode, "smallest": draw(st.integers(0, 4)) == 0}
     if mode == "auto":
-        d["max_time"] = draw(st.sampled_from([2.0, 8.0, 20.0, 20.0, 40.0]))
+        d["max_time"] = draw(st.sampled_from([2.0, 8.0, 8.0, 20.0]))
         if draw(st.booleans()):
             d["perc"] = draw(st.sampled_from([1, 5, 50, 100]))
     elif mode == "repeat":
